@@ -421,7 +421,8 @@ ModelSeq == <<"Henry", "Langmuir", "DSLangmuir", "TSLangmuir", "BET", "GAB", "Fr
               "TemkinApprox", "Virial", "Toth", "JensenSeaton", "FHVST", "WVST">>
 TargetSeq == <<"string", "file">>
 SepSeq == <<"comma", "semicolon", "tab">>
-MatSeq == <<"name_plain", "name_space", "name_unicode", "props_num", "props_text", "props_int">>
+\* props_falsy: material properties whose values are legitimate but falsy (0, 0.0, False)
+MatSeq == <<"name_plain", "name_space", "name_unicode", "props_num", "props_text", "props_int", "props_falsy">>
 AdsSeq == <<"known", "alias", "custom">>
 RepSeq == <<0, 1, 2>>
 \* magnitude class of the numbers a model carries (parameters, ranges, fit error): of order one / tiny (1e-6..1e-12,
@@ -525,9 +526,9 @@ ProductReg(fmt, seed) ==
      Varied(fmt, i, seed, (1 :> (j % 3)) @@ (12 :> ((j \div 3) % Len(MatSeq))) @@ (17 :> (j \div (3 * Len(MatSeq)))))]
 \* material class x adsorbate class x class
 ProductMat(fmt, seed) ==
-  [i \in 1..(3 * 6 * 3) |->
+  [i \in 1..(3 * Len(MatSeq) * 3) |->
      LET j == i - 1 IN
-     Varied(fmt, i, seed, (1 :> (j % 3)) @@ (12 :> ((j \div 3) % 6)) @@ (13 :> ((j \div 18) % 3)) @@ (7 :> (Len(VCSeqX) - 1)))]
+     Varied(fmt, i, seed, (1 :> (j % 3)) @@ (12 :> ((j \div 3) % Len(MatSeq))) @@ (13 :> ((j \div (3 * Len(MatSeq))) % 3)) @@ (7 :> (Len(VCSeqX) - 1)))]
 
 \* class x layout x value class x the key classes that interact with the value (plain, blank, prefix, typed AIF tag)
 KSel == <<0, 2, 5, 6>>
